@@ -193,6 +193,43 @@ Proof.
   - exists 3%nat. split; vm_compute; reflexivity.
 Qed.
 
+(* ------------------------------------------------------------------ oneOf -> externally tagged enums
+   (corpus/convert/enum_external_example.json; T_enum is the REAL type space): unit variants, a newtype
+   variant, a struct variant (closed), a tuple variant, a nullable payload, a "$ref" payload, recursion
+   through a Vec, and an inline enum below a required property *)
+Definition D_enum : defs := [([80]%N, (SObj (Some [TObject]) None None None (mkNumv None None None None None) (mkStrv None None None) ItemsAbsent (@nil schema) None None None false [([122]%N, (SObj (Some [TBoolean]) None None None (mkNumv None None None None None) (mkStrv None None None) ItemsAbsent (@nil schema) None None None false (@nil (ustring * schema)) (@nil ustring) None None None None None None None None None None))] [[122]%N] None None None None None None None None None None)); ([83; 104; 97; 112; 101]%N, (SObj None None None None (mkNumv None None None None None) (mkStrv None None None) ItemsAbsent (@nil schema) None None None false (@nil (ustring * schema)) (@nil ustring) None None None None None (Some [(SObj (Some [TString]) None (Some [(JStr [117; 110; 105; 116]%N); (JStr [111; 116; 104; 101; 114; 45; 111; 110; 101]%N)]) None (mkNumv None None None None None) (mkStrv None None None) ItemsAbsent (@nil schema) None None None false (@nil (ustring * schema)) (@nil ustring) None None None None None None None None None None); (SObj (Some [TObject]) None None None (mkNumv None None None None None) (mkStrv None None None) ItemsAbsent (@nil schema) None None None false [([99; 105; 114; 99; 108; 101]%N, (SObj (Some [TNumber]) None None None (mkNumv None None None None None) (mkStrv None None None) ItemsAbsent (@nil schema) None None None false (@nil (ustring * schema)) (@nil ustring) None None None None None None None None None None))] [[99; 105; 114; 99; 108; 101]%N] (Some (SBool false)) None None None None None None None None None); (SObj (Some [TObject]) None None None (mkNumv None None None None None) (mkStrv None None None) ItemsAbsent (@nil schema) None None None false [([114; 101; 99; 116]%N, (SObj (Some [TObject]) None None None (mkNumv None None None None None) (mkStrv None None None) ItemsAbsent (@nil schema) None None None false [([104]%N, (SObj (Some [TInteger]) None None None (mkNumv None None None None None) (mkStrv None None None) ItemsAbsent (@nil schema) None None None false (@nil (ustring * schema)) (@nil ustring) None None None None None None None None None None)); ([119]%N, (SObj (Some [TInteger]) None None None (mkNumv None None None None None) (mkStrv None None None) ItemsAbsent (@nil schema) None None None false (@nil (ustring * schema)) (@nil ustring) None None None None None None None None None None))] [[104]%N; [119]%N] (Some (SBool false)) None None None None None None None None None))] [[114; 101; 99; 116]%N] (Some (SBool false)) None None None None None None None None None); (SObj (Some [TObject]) None None None (mkNumv None None None None None) (mkStrv None None None) ItemsAbsent (@nil schema) None None None false [([112; 97; 105; 114]%N, (SObj (Some [TArray]) None None None (mkNumv None None None None None) (mkStrv None None None) ItemsTuple [(SObj (Some [TString]) None None None (mkNumv None None None None None) (mkStrv None None None) ItemsAbsent (@nil schema) None None None false (@nil (ustring * schema)) (@nil ustring) None None None None None None None None None None); (SObj (Some [TInteger]) None None None (mkNumv None None None None None) (mkStrv None None None) ItemsAbsent (@nil schema) None None None false (@nil (ustring * schema)) (@nil ustring) None None None None None None None None None None)] None (Some 2%N) (Some 2%N) false (@nil (ustring * schema)) (@nil ustring) None None None None None None None None None None))] [[112; 97; 105; 114]%N] (Some (SBool false)) None None None None None None None None None); (SObj (Some [TObject]) None None None (mkNumv None None None None None) (mkStrv None None None) ItemsAbsent (@nil schema) None None None false [([108; 97; 98; 101; 108]%N, (SObj (Some [TString; TNull]) None None None (mkNumv None None None None None) (mkStrv None None None) ItemsAbsent (@nil schema) None None None false (@nil (ustring * schema)) (@nil ustring) None None None None None None None None None None))] [[108; 97; 98; 101; 108]%N] (Some (SBool false)) None None None None None None None None None); (SObj (Some [TObject]) None None None (mkNumv None None None None None) (mkStrv None None None) ItemsAbsent (@nil schema) None None None false [([115; 117; 98]%N, (SObj None None None None (mkNumv None None None None None) (mkStrv None None None) ItemsAbsent (@nil schema) None None None false (@nil (ustring * schema)) (@nil ustring) None None None None None None None (Some [80]%N) None None))] [[115; 117; 98]%N] (Some (SBool false)) None None None None None None None None None); (SObj (Some [TObject]) None None None (mkNumv None None None None None) (mkStrv None None None) ItemsAbsent (@nil schema) None None None false [([109; 97; 110; 121]%N, (SObj (Some [TArray]) None None None (mkNumv None None None None None) (mkStrv None None None) ItemsSingle [(SObj None None None None (mkNumv None None None None None) (mkStrv None None None) ItemsAbsent (@nil schema) None None None false (@nil (ustring * schema)) (@nil ustring) None None None None None None None (Some [83; 104; 97; 112; 101]%N) None None)] None None None false (@nil (ustring * schema)) (@nil ustring) None None None None None None None None None None))] [[109; 97; 110; 121]%N] (Some (SBool false)) None None None None None None None None None)]) None None None None)); ([85; 115; 101; 114]%N, (SObj (Some [TObject]) None None None (mkNumv None None None None None) (mkStrv None None None) ItemsAbsent (@nil schema) None None None false [([105; 110; 108; 105; 110; 101]%N, (SObj None None None None (mkNumv None None None None None) (mkStrv None None None) ItemsAbsent (@nil schema) None None None false (@nil (ustring * schema)) (@nil ustring) None None None None None (Some [(SObj (Some [TString]) None (Some [(JStr [111; 110]%N); (JStr [111; 102; 102]%N)]) None (mkNumv None None None None None) (mkStrv None None None) ItemsAbsent (@nil schema) None None None false (@nil (ustring * schema)) (@nil ustring) None None None None None None None None None None); (SObj (Some [TObject]) None None None (mkNumv None None None None None) (mkStrv None None None) ItemsAbsent (@nil schema) None None None false [([108; 101; 118; 101; 108]%N, (SObj (Some [TInteger]) (Some [117; 105; 110; 116; 56]%N) None None (mkNumv None None None None None) (mkStrv None None None) ItemsAbsent (@nil schema) None None None false (@nil (ustring * schema)) (@nil ustring) None None None None None None None None None None))] [[108; 101; 118; 101; 108]%N] (Some (SBool false)) None None None None None None None None None)]) None None None None)); ([115; 104; 97; 112; 101]%N, (SObj None None None None (mkNumv None None None None None) (mkStrv None None None) ItemsAbsent (@nil schema) None None None false (@nil (ustring * schema)) (@nil ustring) None None None None None None None (Some [83; 104; 97; 112; 101]%N) None None))] [[105; 110; 108; 105; 110; 101]%N; [115; 104; 97; 112; 101]%N] None None None None None None None None None None))].
+Definition T_enum : space := (mkSpace [(1%N, (mkEntry (DStruct [80]%N None [(mkProp [122]%N RNone PRequired 4%N)] false) (@nil ustring))); (2%N, (mkEntry (DEnum [83; 104; 97; 112; 101]%N None TagExternal [(mkVariant [117; 110; 105; 116]%N [85; 110; 105; 116]%N VSimple); (mkVariant [111; 116; 104; 101; 114; 45; 111; 110; 101]%N [79; 116; 104; 101; 114; 79; 110; 101]%N VSimple); (mkVariant [99; 105; 114; 99; 108; 101]%N [67; 105; 114; 99; 108; 101]%N (VItem 5%N)); (mkVariant [114; 101; 99; 116]%N [82; 101; 99; 116]%N (VStruct [(mkProp [104]%N RNone PRequired 6%N); (mkProp [119]%N RNone PRequired 6%N)])); (mkVariant [112; 97; 105; 114]%N [80; 97; 105; 114]%N (VTuple [7%N; 6%N])); (mkVariant [108; 97; 98; 101; 108]%N [76; 97; 98; 101; 108]%N (VItem 8%N)); (mkVariant [115; 117; 98]%N [83; 117; 98]%N (VItem 1%N)); (mkVariant [109; 97; 110; 121]%N [77; 97; 110; 121]%N (VItem 9%N))] true (@nil bespoke)) (@nil ustring))); (3%N, (mkEntry (DStruct [85; 115; 101; 114]%N None [(mkProp [105; 110; 108; 105; 110; 101]%N RNone PRequired 11%N); (mkProp [115; 104; 97; 112; 101]%N RNone PRequired 2%N)] false) (@nil ustring))); (4%N, (mkEntry DBoolean (@nil ustring))); (5%N, (mkEntry (DFloat [102; 54; 52]%N) (@nil ustring))); (6%N, (mkEntry (DInteger [105; 54; 52]%N) (@nil ustring))); (7%N, (mkEntry DString (@nil ustring))); (8%N, (mkEntry (DOption 7%N) (@nil ustring))); (9%N, (mkEntry (DVec 2%N) (@nil ustring))); (10%N, (mkEntry (DInteger [117; 56]%N) (@nil ustring))); (11%N, (mkEntry (DEnum [85; 115; 101; 114; 73; 110; 108; 105; 110; 101]%N None TagExternal [(mkVariant [111; 110]%N [79; 110]%N VSimple); (mkVariant [111; 102; 102]%N [79; 102; 102]%N VSimple); (mkVariant [108; 101; 118; 101; 108]%N [76; 101; 118; 101; 108]%N (VItem 10%N))] false (@nil bespoke)) (@nil ustring)))] 12%N (mkSettings None (@nil ustring) false [58; 58; 32; 115; 116; 100; 32; 58; 58; 32; 99; 111; 108; 108; 101; 99; 116; 105; 111; 110; 115; 32; 58; 58; 32; 72; 97; 115; 104; 77; 97; 112]%N) false false false false (@nil ustring)).
+Definition v_enum_1 : json := (JObj [([105; 110; 108; 105; 110; 101]%N, (JObj [([108; 101; 118; 101; 108]%N, (JInt (3)%Z))])); ([115; 104; 97; 112; 101]%N, (JObj [([114; 101; 99; 116]%N, (JObj [([104]%N, (JInt (1)%Z)); ([119]%N, (JInt (2)%Z))]))]))]).
+Definition v_enum_2 : json := (JObj [([105; 110; 108; 105; 110; 101]%N, (JStr [111; 102; 102]%N)); ([115; 104; 97; 112; 101]%N, (JObj [([109; 97; 110; 121]%N, (JArr [(JStr [117; 110; 105; 116]%N); (JObj [([112; 97; 105; 114]%N, (JArr [(JStr [97]%N); (JInt (7)%Z)]))]); (JObj [([108; 97; 98; 101; 108]%N, JNull)]); (JObj [([115; 117; 98]%N, (JObj [([122]%N, (JBool true))]))]); (JObj [([99; 105; 114; 99; 108; 101]%N, (JFlt (Qmake (5)%Z 2%positive)))])]))]))]).
+
+Example C02F_enum_in_frag : in_frag Sanitize.ascii_classes D_enum = true.
+Proof. vm_compute. reflexivity. Qed.
+
+Example C02F_enum_convert : convert_doc Sanitize.ascii_classes D_enum = Some T_enum.
+Proof. vm_compute. reflexivity. Qed.
+
+Example C02F_enum_accepted_1 : exists f, de no_re no_re T_enum f 3%N v_enum_1 <> None.
+Proof.
+  apply (C02F_fragment_sound Sanitize.ascii_classes no_re no_re no_re D_enum T_enum) with (r := [85; 115; 101; 114]%N).
+  - intros f n s _ H. discriminate H.
+  - exact C02F_enum_in_frag.
+  - exact C02F_enum_convert.
+  - vm_compute. right. right. left. reflexivity.
+  - vm_compute. reflexivity.
+  - exists 8%nat. split; vm_compute; reflexivity.
+Qed.
+
+Example C02F_enum_accepted_2 : exists f, de no_re no_re T_enum f 3%N v_enum_2 <> None.
+Proof.
+  apply (C02F_fragment_sound Sanitize.ascii_classes no_re no_re no_re D_enum T_enum) with (r := [85; 115; 101; 114]%N).
+  - intros f n s _ H. discriminate H.
+  - exact C02F_enum_in_frag.
+  - exact C02F_enum_convert.
+  - vm_compute. right. right. left. reflexivity.
+  - vm_compute. reflexivity.
+  - exists 10%nat. split; vm_compute; reflexivity.
+Qed.
+
 (* a by-value cycle (needs a Box from break_cycles) is outside the fragment *)
 Example C02F_cycle_out : in_frag Sanitize.ascii_classes D_cycle = false.
 Proof. vm_compute. reflexivity. Qed.
